@@ -680,8 +680,8 @@ Section Bridge.
     eval Fx G Ginv (ls_term dt al be ga h u) env
     = Integrators.ls_loop (vo := toVOps) Fx G Gi dt al be ga (eval Fx G Ginv h env) (eval Fx G Ginv u env).
   Proof.
-    revert al ga h u. induction be as [|b be IH]; intros al ga h u; [reflexivity|].
-    destruct ga as [|g ga]; [reflexivity|].
+    revert al ga h u. induction be as [|b be IH]; intros al ga h u; [destruct al; reflexivity|].
+    destruct ga as [|g ga]; [destruct al; reflexivity|].
     destruct al as [|a0 [|a1 al]]; [reflexivity|reflexivity|].
     cbn [ls_term Integrators.ls_loop]. rewrite IH. reflexivity.
   Qed.
@@ -712,6 +712,11 @@ Section Bridge.
     destruct x as [t|]; [|reflexivity]. cbn [evo option_map]. rewrite IH. reflexivity.
   Qed.
 
+  Lemma bridge_wsum0 u cs xs :
+    option_map (fun t => eval Fx G Ginv t (env1 u)) (tsum_skip cs xs TZero)
+    = Integrators.wsum_skip (vo := toVOps) cs (map (evo u) xs) (Integrators.vzero (VOps := toVOps)).
+  Proof. exact (bridge_wsum u cs xs TZero). Qed.
+
   Lemma bridge_stages u dt b_ex b_im i rex rim fs gs :
     option_map (fun p => (map (evo u) (fst p), map (evo u) (snd p)))
                (imex_stage_terms dt b_ex b_im i rex rim fs gs)
@@ -720,7 +725,7 @@ Section Bridge.
     revert i rim fs gs. induction rex as [|re rex IH]; intros i rim fs gs; [reflexivity|].
     destruct rim as [|ri rim]; [reflexivity|].
     cbn [imex_stage_terms Integrators.imex_stages].
-    rewrite <- !(bridge_wsum u).
+    rewrite <- !(bridge_wsum0 u).
     destruct (tsum_skip re fs TZero) as [ex|]; [|reflexivity].
     destruct (tsum_skip ri gs TZero) as [im|]; [|reflexivity].
     cbn [option_map]. rewrite IH. rewrite !map_app. cbn [map].
@@ -738,7 +743,7 @@ Section Bridge.
     cbn [map evo option_map] in H. change (eval Fx G Ginv (TF U) (env1 u)) with (Fx u) in H.
     change (eval Fx G Ginv (TG U) (env1 u)) with (G u) in H. rewrite <- H.
     destruct (imex_stage_terms dt b_ex b_im 1 a_ex a_im [Some (TF U)] [Some (TG U)]) as [[fs gs]|]; [|reflexivity].
-    cbn [option_map fst snd]. rewrite <- !(bridge_wsum u).
+    cbn [option_map fst snd]. rewrite <- !(bridge_wsum0 u).
     destruct (tsum_skip b_ex fs TZero) as [ex|]; [|reflexivity].
     destruct (tsum_skip b_im gs TZero) as [im|]; reflexivity.
   Qed.
